@@ -9,7 +9,10 @@ use std::{
 };
 
 use super::Flags;
-use crate::io::reader::num::{read_u8, read_uint7_as};
+use crate::{
+    codecs::alloc_zeroed,
+    io::reader::num::{read_u8, read_uint7_as},
+};
 
 pub fn decode(mut src: &[u8], mut uncompressed_size: usize) -> io::Result<Vec<u8>> {
     use crate::codecs::rans_nx16::decode::bit_pack;
@@ -32,19 +35,25 @@ pub fn decode(mut src: &[u8], mut uncompressed_size: usize) -> io::Result<Vec<u8
         None
     };
 
-    let mut dst = vec![0; uncompressed_size];
-
-    if flags.is_uncompressed() {
-        dst.copy_from_slice(src);
-    } else if flags.uses_external_codec() {
-        decode_ext(&mut src, &mut dst)?;
-    } else if flags.is_rle() {
-        rle::decode(&mut src, flags, &mut dst)?;
-    } else if flags.order() == 0 {
-        order_0::decode(&mut src, &mut dst)?;
+    let mut dst = if flags.is_uncompressed() {
+        src.split_off(..uncompressed_size)
+            .map(Vec::from)
+            .ok_or_else(|| io::Error::from(io::ErrorKind::UnexpectedEof))?
     } else {
-        order_1::decode(&mut src, &mut dst)?;
-    }
+        let mut dst = alloc_zeroed(uncompressed_size)?;
+
+        if flags.uses_external_codec() {
+            decode_ext(&mut src, &mut dst)?;
+        } else if flags.is_rle() {
+            rle::decode(&mut src, flags, &mut dst)?;
+        } else if flags.order() == 0 {
+            order_0::decode(&mut src, &mut dst)?;
+        } else {
+            order_1::decode(&mut src, &mut dst)?;
+        }
+
+        dst
+    };
 
     if let Some(ctx) = bit_pack_context {
         dst = bit_pack::decode(&dst, &ctx)?;
